@@ -292,6 +292,14 @@ def execute_one(plan):
                 st["unsent"] = sum(len(b) for b in acc._batches.values()) + len(acc._pending_batches)
             except Exception:  # noqa: BLE001
                 st["unsent"] = None
+            # work that stop() has to finish first: unsent batches, or a transaction in progress
+            try:
+                tm = c._txn_manager
+                st["busy"] = bool(st["unsent"]) or (
+                    kind == "txn_producer" and tm is not None
+                    and tm.state.name in ("IN_TRANSACTION", "COMMITTING_TRANSACTION", "ABORTING_TRANSACTION"))
+            except Exception:  # noqa: BLE001
+                st["busy"] = True
         try:
             await c.stop()
         except (Exception, asyncio.CancelledError) as exc:  # noqa: BLE001
@@ -448,7 +456,7 @@ def oracle(plan, world, cl, obs, B):
     loop = world.loop
     base = {"kind": kind, "env": plan["env_kind"], "stop_at": plan.get("stop_at"),
             "idempotent": bool(plan["kw"].get("enable_idempotence")),
-            "unsent_at_stop": st.get("unsent"),
+            "unsent_at_stop": st.get("unsent"), "busy_at_stop": st.get("busy"),
             "phase": st.get("phase"), "faults": dict(world.fault_counts),
             "t_call": round(st["t_call"] - world.t0, 4)}
     if not st["returned"]:
